@@ -194,16 +194,39 @@ func c19Units(p *core.Program, r *core.Report) {
 	for name, step := range want {
 		fi := p.Method("util/dateutil", "DateTimeHelper", name)
 		c := "util/dateutil.(*DateTimeHelper)." + name
-		if fi == nil || fi.Decl.Body == nil || len(fi.Decl.Body.List) != 1 {
-			r.Undec("C19.units", c, "-", "not found or not a single return")
+		if fi == nil || fi.Decl.Body == nil || len(fi.Decl.Body.List) == 0 {
+			r.Undec("C19.units", c, "-", "not found")
 			continue
 		}
-		rs, ok := fi.Decl.Body.List[0].(*ast.ReturnStmt)
-		s := ""
-		if ok && len(rs.Results) == 1 {
-			s = strings.ReplaceAll(stripSpaces(types.ExprString(rs.Results[0])), recvName(fi)+".", "")
+		info := fi.Pkg.TypesInfo
+		rs, ok := fi.Decl.Body.List[len(fi.Decl.Body.List)-1].(*ast.ReturnStmt)
+		if !ok || len(rs.Results) != 1 || fi.Decl.Type.Params.NumFields() != 1 {
+			r.Undec("C19.units", c, p.Pos(fi.Decl.Pos()), "no single result")
+			continue
 		}
-		r.Check(s == "(time-BASE_TIME)/"+step, "C19.units", c, p.Pos(fi.Decl.Pos()), "(t-BASE)/"+step, "unit is computed as `"+s+"`, not (t-BASE)/"+step)
+		tobj := info.Defs[fi.Decl.Type.Params.List[0].Names[0]]
+		// the value returned, with locals and value helpers (unitOf(t, step)) expanded
+		val := stripConvs(info, inlineValue(p, fi, rs.Results[0], 0))
+		s := strings.ReplaceAll(stripSpaces(types.ExprString(val)), recvName(fi)+".", "")
+		var stepWant int64 = -1
+		if pk := p.Pkg("util/dateutil"); pk != nil {
+			if cst, isC := pk.Types.Scope().Lookup(step).(*types.Const); isC {
+				fmt.Sscanf(cst.Val().ExactString(), "%d", &stepWant)
+			}
+		}
+		good := false
+		if be, isB := val.(*ast.BinaryExpr); isB && be.Op == token.QUO {
+			if k, isC := constIntOf(info, stripConvs(info, be.Y)); isC && k == stepWant && stepWant > 0 {
+				if sub, isS := stripConvs(info, be.X).(*ast.BinaryExpr); isS && sub.Op == token.SUB {
+					tid, okT := stripConvs(info, sub.X).(*ast.Ident)
+					bsel, okB := stripConvs(info, sub.Y).(*ast.SelectorExpr)
+					if okT && okB && info.ObjectOf(tid) == tobj && bsel.Sel.Name == "BASE_TIME" {
+						good = true
+					}
+				}
+			}
+		}
+		r.Check(good, "C19.units", c, p.Pos(fi.Decl.Pos()), "(t-BASE)/"+step, "unit is computed as `"+s+"`, not (t-BASE)/"+step)
 	}
 }
 
